@@ -45,60 +45,118 @@ theorem importDone_nil (s : St) (p u : Nat) (a b d : List Nat) (st : Started)
   exact ⟨hs.1.trans e1, hs.2.1.trans e2, hs.2.2.trans e3⟩
 
 /-- all converter results applied to one tag -/
-def cdAll (convs : List String) (sets : List (String × IdSet)) (t : Tag) : Tag :=
-  sets.foldl (fun t p => if convs.contains p.1 then cdF p.2 t else t) t
+def cdAll (all : Nat) (convs : List String) (sets : List (String × IdSet)) (t : Tag) : Tag :=  -- CHANGED (conv)
+  sets.foldl (fun t p => if convs.contains p.1 then cdF all p.2 t else t) t
 
-theorem cdF_feat (ids : IdSet) (t : Tag) : (cdF ids t).mfeat = t.mfeat ∧ (cdF ids t).sfeat = t.sfeat := by
-  unfold cdF; split <;> exact ⟨rfl, rfl⟩
+theorem cdF_feat (all : Nat) (ids : IdSet) (t : Tag) :  -- CHANGED (conv)
+    (cdF all ids t).mfeat = t.mfeat ∧ (cdF all ids t).sfeat = t.sfeat := by
+  unfold cdF; split
+  · split <;> exact ⟨rfl, rfl⟩
+  · split <;> exact ⟨rfl, rfl⟩
 
-theorem mem_cdF_unc (ids : IdSet) (t : Tag) (id : Nat) :
-    id ∈ (cdF ids t).unc ↔ id ∈ t.unc ∨ (¬ (t.mfeat &&& fData = 0 ∧ t.sfeat &&& fData = 0) ∧ id ∈ ids) := by
-  unfold cdF
-  split
-  · rename_i h
-    simp only [Bool.and_eq_true, beq_iff_eq] at h
-    simp [h]
-  · rename_i h
-    simp only [Bool.and_eq_true, beq_iff_eq] at h
-    simp [h]
+-- CHANGED (conv): `mem_cdF_unc` (exact characterisation, no longer true) replaced by four one-step lemmas
+theorem cdF_grow (all : Nat) (ids : IdSet) (t : Tag) (id : Nat) (h : id ∈ t.unc) (hb : id < all) :
+    id ∈ (cdF all ids t).unc := (trel_cdF all ids t).2.2 id h hb
 
-theorem mem_cdAll_unc (convs : List String) (sets : List (String × IdSet)) (t : Tag) (id : Nat) :
-    id ∈ (cdAll convs sets t).unc ↔
-      id ∈ t.unc ∨ (¬ (t.mfeat &&& fData = 0 ∧ t.sfeat &&& fData = 0) ∧ ∃ p, p ∈ sets ∧ p.1 ∈ convs ∧ id ∈ p.2) := by
+theorem cdF_main (all : Nat) (ids : IdSet) (t : Tag) (id : Nat) (hm : t.mfeat &&& fData ≠ 0) (hid : id ∈ ids)
+    (hb : id < all) : id ∈ (cdF all ids t).unc := by
+  unfold cdF; split
+  · split
+    · rename_i h; simp only [List.isEmpty_iff] at h; subst h; cases hid
+    · simpa using hb
+  · split
+    · rename_i h; simp only [beq_iff_eq] at h; exact absurd h hm
+    · simp [hid]
+
+theorem cdF_sub (all : Nat) (ids : IdSet) (t : Tag) (id : Nat) (hs : t.sfeat &&& fData ≠ 0) (hne : ids ≠ [])
+    (hb : id < all) : id ∈ (cdF all ids t).unc := by
+  unfold cdF; split
+  · split
+    · rename_i h; simp only [List.isEmpty_iff] at h; exact absurd h hne
+    · simpa using hb
+  · rename_i h; simp only [bne_iff_ne, ne_eq, Decidable.not_not] at h; exact absurd h hs
+
+theorem cdF_bound (all : Nat) (ids : IdSet) (t : Tag) (id : Nat) (h : id ∈ (cdF all ids t).unc) :
+    id ∈ t.unc ∨ id < all ∨ id ∈ ids := by
+  revert h; unfold cdF; split
+  · split
+    · exact Or.inl
+    · intro h; exact Or.inr (Or.inl (by simpa using h))
+  · split
+    · exact Or.inl
+    · intro h
+      rcases (mem_union _ _ _).1 h with h | h
+      · exact Or.inl h
+      · exact Or.inr (Or.inr h)
+
+-- CHANGED (conv): `mem_cdAll_unc` replaced by `cdAll_grow`, `cdAll_main`, `cdAll_sub`, `cdAll_bound`
+theorem cdAll_grow (all : Nat) (convs : List String) (sets : List (String × IdSet)) (t : Tag) (id : Nat)
+    (h : id ∈ t.unc) (hb : id < all) : id ∈ (cdAll all convs sets t).unc := by
   unfold cdAll
   induction sets generalizing t with
-  | nil => simp
+  | nil => exact h
   | cons q sets ih =>
     simp only [List.foldl_cons]
-    rw [ih]
+    apply ih
     split
-    · rename_i hq
-      simp only [List.contains_iff_mem] at hq
-      rw [mem_cdF_unc, (cdF_feat q.2 t).1, (cdF_feat q.2 t).2]
-      simp only [List.mem_cons]
-      constructor
-      · rintro ((h | ⟨h1, h2⟩) | ⟨h1, p, hp, h2⟩)
-        · exact Or.inl h
-        · exact Or.inr ⟨h1, q, Or.inl rfl, hq, h2⟩
-        · exact Or.inr ⟨h1, p, Or.inr hp, h2⟩
-      · rintro (h | ⟨h1, p, rfl | hp, h2, h3⟩)
-        · exact Or.inl (Or.inl h)
-        · exact Or.inl (Or.inr ⟨h1, h3⟩)
-        · exact Or.inr ⟨h1, p, hp, h2, h3⟩
-    · rename_i hq
-      simp only [List.contains_iff_mem] at hq
-      simp only [List.mem_cons]
-      constructor
-      · rintro (h | ⟨h1, p, hp, h2⟩)
-        · exact Or.inl h
-        · exact Or.inr ⟨h1, p, Or.inr hp, h2⟩
-      · rintro (h | ⟨h1, p, rfl | hp, h2, h3⟩)
-        · exact Or.inl h
-        · exact absurd h2 hq
-        · exact Or.inr ⟨h1, p, hp, h2, h3⟩
+    · exact cdF_grow all q.2 t id h hb
+    · exact h
+
+/-- main-query data features (and no sub-query data features): the reported streams -/
+theorem cdAll_main (all : Nat) (convs : List String) (sets : List (String × IdSet)) (t : Tag) (id : Nat)
+    (hm : t.mfeat &&& fData ≠ 0) (p : String × IdSet) (hp : p ∈ sets) (hc : p.1 ∈ convs) (hid : id ∈ p.2)
+    (hb : id < all) : id ∈ (cdAll all convs sets t).unc := by
+  induction sets generalizing t with
+  | nil => cases hp
+  | cons q sets ih =>
+    rcases List.mem_cons.1 hp with rfl | hp
+    · have hq : convs.contains p.1 = true := by simpa using hc
+      simp only [cdAll, List.foldl_cons, hq, if_true]
+      exact cdAll_grow all convs sets _ id (cdF_main all p.2 t id hm hid hb) hb
+    · simp only [cdAll, List.foldl_cons]
+      refine ih _ ?_ hp
+      split
+      · rw [(cdF_feat all q.2 t).1]; exact hm
+      · exact hm
+
+/-- sub-query data features: every stream, as soon as some configured converter reports a non-empty set -/
+theorem cdAll_sub (all : Nat) (convs : List String) (sets : List (String × IdSet)) (t : Tag) (id : Nat)
+    (hs : t.sfeat &&& fData ≠ 0) (p : String × IdSet) (hp : p ∈ sets) (hc : p.1 ∈ convs) (hne : p.2 ≠ [])
+    (hb : id < all) : id ∈ (cdAll all convs sets t).unc := by
+  induction sets generalizing t with
+  | nil => cases hp
+  | cons q sets ih =>
+    rcases List.mem_cons.1 hp with rfl | hp
+    · have hq : convs.contains p.1 = true := by simpa using hc
+      simp only [cdAll, List.foldl_cons, hq, if_true]
+      exact cdAll_grow all convs sets _ id (cdF_sub all p.2 t id hs hne hb) hb
+    · simp only [cdAll, List.foldl_cons]
+      refine ih _ ?_ hp
+      split
+      · rw [(cdF_feat all q.2 t).2]; exact hs
+      · exact hs
+
+theorem cdAll_bound (all : Nat) (convs : List String) (sets : List (String × IdSet)) (t : Tag) (id : Nat)
+    (h : id ∈ (cdAll all convs sets t).unc) :
+    id ∈ t.unc ∨ id < all ∨ ∃ p, p ∈ sets ∧ id ∈ p.2 := by
+  induction sets generalizing t with
+  | nil => exact Or.inl h
+  | cons q sets ih =>
+    simp only [cdAll, List.foldl_cons] at h
+    rcases ih _ h with h1 | h1 | ⟨p, hp, h1⟩
+    · revert h1
+      split
+      · intro h1
+        rcases cdF_bound all q.2 t id h1 with h2 | h2 | h2
+        · exact Or.inl h2
+        · exact Or.inr (Or.inl h2)
+        · exact Or.inr (Or.inr ⟨q, List.mem_cons_self, h2⟩)
+      · exact Or.inl
+    · exact Or.inr (Or.inl h1)
+    · exact Or.inr (Or.inr ⟨p, List.mem_cons_of_mem _ hp, h1⟩)
 
 theorem foldl_cdMark (sets : List (String × IdSet)) (s0 : St) :
-    (sets.foldl cdMark s0).tags = s0.tags.map (fun q => (q.1, cdAll s0.convs sets q.2)) ∧
+    (sets.foldl cdMark s0).tags = s0.tags.map (fun q => (q.1, cdAll s0.all s0.convs sets q.2)) ∧  -- CHANGED (conv)
     (sets.foldl cdMark s0).all = s0.all ∧ (sets.foldl cdMark s0).next = s0.next := by
   induction sets generalizing s0 with
   | nil => simp [cdAll]
@@ -109,7 +167,7 @@ theorem foldl_cdMark (sets : List (String × IdSet)) (s0 : St) :
     have ha : (cdMark s0 p).all = s0.all := by unfold cdMark; split <;> rfl
     have hn : (cdMark s0 p).next = s0.next := by unfold cdMark; split <;> rfl
     refine ⟨?_, h2.trans ha, h3.trans hn⟩
-    rw [h1, hcv]
+    rw [h1, hcv, ha]
     unfold cdMark
     split
     · rename_i hq
@@ -131,7 +189,7 @@ theorem convertDone_via (s : St) (st : Started) (sets : List (String × IdSet)) 
     (hj : s.jConv = some (sets, held)) :
     ∃ s1 : St, (step s .convertDone st).1.tags = (inherit s1).tags ∧
       (step s .convertDone st).1.all = s.all ∧ (step s .convertDone st).1.next = s.next ∧ s1.all = s.all ∧
-      s1.tags = s.tags.map (fun q => (q.1, cdAll s.convs sets q.2)) := by
+      s1.tags = s.tags.map (fun q => (q.1, cdAll s.all s.convs sets q.2)) := by  -- CHANGED (conv)
   rw [step_convertDone_eq, hj]
   obtain ⟨h1, h2, h3⟩ := foldl_cdMark sets { s with convert := false, jConv := none }
   have hS := ((startTagging_same (inherit (sets.foldl cdMark { s with convert := false, jConv := none })) st.tag).trans
@@ -292,15 +350,16 @@ theorem tagDone_same (s : St) (name : String) (result : List Nat) (st : Started)
       ⟨rfl, rfl, rfl⟩ ((jobTail_same _ _).trans (release_same _ _))
 
 theorem tdPublish_live (s : St) (name : String) (snap ot : Tag) (result : IdSet)
-    (hot : sget s.tags name = some ot) (hd : ot.defn = snap.defn) :
+    (hot : sget s.tags name = some ot) (hd : ot.defn = snap.defn) (hg : ot.gen = snap.gen) :  -- CHANGED (gen)
     tdPublish s name snap result =
       tdInval (setTag (qConv s (tdTag snap ot result).convs (tdTag snap ot result).mat) name (tdTag snap ot result)) := by
   unfold tdPublish
   rw [hot]
-  simp only [hd, beq_self_eq_true, if_true]
+  simp only [hd, hg, beq_self_eq_true, Bool.and_self, if_true]
 
 theorem tagDone_via (s : St) (name : String) (result : List Nat) (st : Started) (snap ot : Tag) (held : List Nat)
     (hj : s.jTag = some (name, snap, held)) (hot : sget s.tags name = some ot) (hd : ot.defn = snap.defn)
+    (hg : ot.gen = snap.gen)  -- CHANGED (gen)
     (hm : ¬ (s.upd = [] ∧ s.rst = [] ∧ s.add = [])) :
     ∃ s1 : St, (step s (.tagDone name result) st).1.tags = (inherit s1).tags ∧
       (step s (.tagDone name result) st).1.all = s.all ∧ (step s (.tagDone name result) st).1.next = s.next ∧
@@ -309,7 +368,7 @@ theorem tagDone_via (s : St) (name : String) (result : List Nat) (st : Started) 
         (fun q => (q.1, invF s.all s.upd s.rst s.add q.2)) := by
   have hS := tagDone_same s name result st snap held hj
   have hot' : sget ({ s with jTag := none } : St).tags name = some ot := hot
-  rw [tdPublish_live _ name snap ot _ hot' hd] at hS
+  rw [tdPublish_live _ name snap ot _ hot' hd hg] at hS
   generalize hX : setTag (qConv { s with jTag := none } (tdTag snap ot (ofList result)).convs
       (tdTag snap ot (ofList result)).mat) name (tdTag snap ot (ofList result)) = X at hS
   have hq := qConv_same { s with jTag := none } (tdTag snap ot (ofList result)).convs (tdTag snap ot (ofList result)).mat
@@ -336,12 +395,13 @@ theorem tagDone_via (s : St) (name : String) (result : List Nat) (st : Started) 
 
 theorem tagDone_plain (s : St) (name : String) (result : List Nat) (st : Started) (snap ot : Tag) (held : List Nat)
     (hj : s.jTag = some (name, snap, held)) (hot : sget s.tags name = some ot) (hd : ot.defn = snap.defn)
+    (hg : ot.gen = snap.gen)  -- CHANGED (gen)
     (hm : s.upd = [] ∧ s.rst = [] ∧ s.add = []) :
     (step s (.tagDone name result) st).1.tags = sins name (tdTag snap ot (ofList result)) s.tags ∧
     (step s (.tagDone name result) st).1.all = s.all ∧ (step s (.tagDone name result) st).1.next = s.next := by
   have hS := tagDone_same s name result st snap held hj
   have hot' : sget ({ s with jTag := none } : St).tags name = some ot := hot
-  rw [tdPublish_live _ name snap ot _ hot' hd] at hS
+  rw [tdPublish_live _ name snap ot _ hot' hd hg] at hS
   have hq := qConv_same { s with jTag := none } (tdTag snap ot (ofList result)).convs (tdTag snap ot (ofList result)).mat
   have hqm := qConv_masks { s with jTag := none } (tdTag snap ot (ofList result)).convs (tdTag snap ot (ofList result)).mat
   have hI : tdInval (setTag (qConv { s with jTag := none } (tdTag snap ot (ofList result)).convs
@@ -363,7 +423,8 @@ theorem tagDone_plain (s : St) (name : String) (result : List Nat) (st : Started
   rw [hq.1]
 
 theorem tagDone_dead (s : St) (name : String) (result : List Nat) (st : Started) (snap : Tag) (held : List Nat)
-    (hj : s.jTag = some (name, snap, held)) (h : ∀ ot, sget s.tags name = some ot → ot.defn ≠ snap.defn) :
+    (hj : s.jTag = some (name, snap, held))
+    (h : ∀ ot, sget s.tags name = some ot → ¬ (ot.defn = snap.defn ∧ ot.gen = snap.gen)) :  -- CHANGED (gen)
     (step s (.tagDone name result) st).1.tags = s.tags ∧
     (step s (.tagDone name result) st).1.all = s.all ∧ (step s (.tagDone name result) st).1.next = s.next := by
   have hS := tagDone_same s name result st snap held hj
@@ -373,7 +434,7 @@ theorem tagDone_dead (s : St) (name : String) (result : List Nat) (st : Started)
     · rename_i ot hot
       split
       · rename_i hd
-        simp only [beq_iff_eq] at hd
+        simp only [Bool.and_eq_true, beq_iff_eq] at hd
         exact absurd hd (h ot hot)
       · rfl
     · rfl
